@@ -317,4 +317,42 @@ def rskip (P : Params) : Nat → R → R
       | [] => r2
       | f2 :: _ => if f2.written = 0 then r2 else rskip P fuel r2
 
+/-! ### reading with one frame skipped (`lyb_read_start_siblings; lyb_skip_siblings; lyb_read_stop_siblings`) -/
+
+/-- the ops after the stop that closes the frame just opened (`d` deeper frames open) -/
+def dropFrame : List Op → Nat → List Op
+  | [], _ => []
+  | .start :: t, d => dropFrame t (d + 1)
+  | .stop :: t, 0 => t
+  | .stop :: t, d + 1 => dropFrame t d
+  | .write _ :: t, d => dropFrame t d
+
+/-- reader driven by the shape, except that the frame opened by the `k`-th start is passed with
+`lyb_read_start_siblings; lyb_skip_siblings; lyb_read_stop_siblings`.  Returns the final state and the payloads read. -/
+def readSkipping (P : Params) : List Op → Nat → R × List Bytes → Option (R × List Bytes)
+  | [], _, st => some st
+  | .start :: r, 0, st =>
+    let r1 := rstart P st.1
+    let r2 := rskip P (r1.inp.length + 2) r1
+    match rstop r2 with
+    | none => none
+    | some r3 => rrun P (r3, st.2) ((dropFrame r 0).map Op.shape)
+  | .start :: r, k + 1, st => match rop P st .start with
+    | none => none
+    | some st' => readSkipping P r k st'
+  | .stop :: r, k, st => match rop P st .stop with
+    | none => none
+    | some st' => readSkipping P r k st'
+  | .write bs :: r, k, st => match rop P st (.read bs.length) with
+    | none => none
+    | some st' => readSkipping P r k st'
+
+/-- the payloads outside the frame opened by the `k`-th start -/
+def payloadsSkipping : List Op → Nat → List Bytes
+  | [], _ => []
+  | .start :: r, 0 => payloads (dropFrame r 0)
+  | .start :: r, k + 1 => payloadsSkipping r k
+  | .write bs :: r, k => bs :: payloadsSkipping r k
+  | .stop :: r, k => payloadsSkipping r k
+
 end LyModel.Lyb
